@@ -126,7 +126,7 @@ func (p *Program) buildSeams() {
 				}
 			}
 		}
-		for base, stores := range byBase {
+		for _, stores := range byBase {
 			for _, s := range stores {
 				key, ft := fieldKey(s.fa.X.Type(), s.fa.Field)
 				if ft == nil || !isSeamType(ft) {
@@ -146,7 +146,7 @@ func (p *Program) buildSeams() {
 					}
 				}
 				// the value of a sibling field of the same literal, followed by field selections
-				if sm := siblingPath(base, stores, v); sm != nil {
+				if sm := siblingPath(s.fa, stores, v); sm != nil {
 					if _, isIface := ft.Underlying().(*types.Interface); isIface && inRepoConcrete(v.Type()) {
 						sm.typ = v.Type()
 					}
@@ -167,12 +167,12 @@ func (p *Program) buildSeams() {
 
 // siblingPath: v is root.f1.f2… where root is exactly the value another field of the same object is initialised
 // with in the same function.
-func siblingPath(base ssa.Value, stores []fstore, v ssa.Value) *seam {
+func siblingPath(self *ssa.FieldAddr, stores []fstore, v ssa.Value) *seam {
 	var path []pathStep
 	cur := v
 	for depth := 0; depth < 4; depth++ {
 		for _, s := range stores {
-			if stripConv(s.val) == cur && s.val != v && !isSeamType(s.fa.Type().(*types.Pointer).Elem()) {
+			if stripConv(s.val) == cur && s.fa != self && !isSeamType(s.fa.Type().(*types.Pointer).Elem()) {
 				k, _ := fieldKey(s.fa.X.Type(), s.fa.Field)
 				// reverse the collected path
 				for i, j := 0, len(path)-1; i < j; i, j = i+1, j-1 {
@@ -279,6 +279,87 @@ func (ev *Evaluator) bindByTermType(t types.Type, name string) *ssa.Function {
 		}
 		if f, ok := sel.Obj().(*types.Func); ok {
 			return ev.P.Prog.FuncValue(f.Origin())
+		}
+	}
+	return nil
+}
+
+// afterFuncArg: if the call arms a timer callback — time.AfterFunc itself, or a thin wrapper of the library that hands
+// one of its own parameters to time.AfterFunc, called directly or through a collaborator seam — the callback argument.
+// The call inside such a wrapper is not a site of its own (the wrapper's callers are).
+func (p *Program) afterFuncArg(call *ssa.CallCommon) ssa.Value {
+	if p.afterFuncLike == nil {
+		p.afterFuncLike = map[*ssa.Function]int{}
+		for _, fn := range p.Funcs {
+			for _, b := range fn.Blocks {
+				for _, in := range b.Instrs {
+					c, isCall := in.(*ssa.Call)
+					if !isCall {
+						continue
+					}
+					if cal := calleeOf(&c.Call); cal == nil || qualName(cal) != "time.AfterFunc" || len(c.Call.Args) != 2 {
+						continue
+					}
+					if prm, isP := c.Call.Args[1].(*ssa.Parameter); isP {
+						for k, q := range fn.Params {
+							if q == prm {
+								p.afterFuncLike[origin(fn)] = k
+							}
+						}
+					}
+				}
+			}
+		}
+	}
+	cal := calleeOf(call)
+	if cal == nil {
+		return nil
+	}
+	k := -1
+	if qualName(cal) == "time.AfterFunc" && len(call.Args) == 2 {
+		k = 1
+	} else if kk, isWrapper := p.afterFuncLike[origin(cal)]; isWrapper {
+		k = kk
+	}
+	if k < 0 || k >= len(call.Args) {
+		return nil
+	}
+	if prm, isP := call.Args[k].(*ssa.Parameter); isP {
+		if _, inWrapper := p.afterFuncLike[origin(prm.Parent())]; inWrapper {
+			return nil
+		}
+	}
+	return call.Args[k]
+}
+
+// invokeTarget: the method an interface call is bound to when the interface is a collaborator seam: an unexported
+// interface with one implementer, or an interface-typed field always initialised with one concrete library type.
+func (p *Program) invokeTarget(c *ssa.CallCommon) *ssa.Function {
+	if !c.IsInvoke() {
+		return nil
+	}
+	if f := p.soleImplementer(c.Value.Type(), c.Method); f != nil {
+		return origin(f)
+	}
+	if p.seamField == nil {
+		if rawIndex {
+			return nil
+		}
+		p.buildSeams()
+	}
+	if ld, isLoad := c.Value.(*ssa.UnOp); isLoad {
+		if fa, isFA := ld.X.(*ssa.FieldAddr); isFA {
+			k, _ := fieldKey(fa.X.Type(), fa.Field)
+			if s := p.seamField[k]; s != nil && !s.bad && s.typ != nil && inRepoConcrete(s.typ) {
+				ms := types.NewMethodSet(s.typ)
+				if sel := ms.Lookup(c.Method.Pkg(), c.Method.Name()); sel != nil {
+					if f, ok := sel.Obj().(*types.Func); ok {
+						if g := p.Prog.FuncValue(f.Origin()); g != nil {
+							return origin(g)
+						}
+					}
+				}
+			}
 		}
 	}
 	return nil
